@@ -169,7 +169,7 @@ class Printer(PrinterBase):
 
     def make_argument(self, arg):
         typ = self.get_type(arg)
-        return f"{typ} {arg}"
+        return f"{typ} {self.tostring(arg)}"
 
     def make_apply(self, expr, name, tab=""):
         sargs = ", ".join(map(self.make_argument, expr.operands[1:-1]))
